@@ -32,7 +32,7 @@ MANIFEST = {
 
 
 def all_skeletons(tier):
-    out = [(t, s, "gen") for t, s in gen.skeletons(1 if tier == "quick" else 2)]
+    out = [(t, s, "gen") for t, s, _ in gen.skeletons(1 if tier == "quick" else 2)]
     if tier == "thorough":
         from . import corpus
         out += [("?", s, "corpus") for s in corpus.lifted_skeletons()]
